@@ -180,7 +180,9 @@ def matchfile_from_alignment(
     )
 
     # Measure map (which measure corresponds to which time point in divs)
-    beat_map = spart.beat_map
+    # the format counts beats of the time signature's denominator, also for a
+    # part that is set to count in musical beats
+    beat_map = spart._time_interpolator()
 
     ptime_to_stime_map, _ = get_time_maps_from_alignment(
         ppart_or_note_array=ppart.note_array(),
